@@ -422,12 +422,10 @@ fn exec_inner(r: &Rec) -> Out {
             let res = catch_unwind(AssertUnwindSafe(|| {
                 let mut w = Vec::new();
                 let rr = match tcode {
-                    1 => {
-                        let mut o = VecZnx::from_data(data.clone(), u(0), u(1), u(2));
-                        o.max_size = u(3);
-                        o.write_to(&mut w)
-                    }
-                    2 => ScalarZnx::from_data(data.clone(), u(0), u(1)).write_to(&mut w),
+                    // public fields: any state can be written down, also a header the buffer does not hold
+                    // (from_data validates since /repo 2067fe8; MatZnx has private fields: only consistent shapes are generated)
+                    1 => VecZnx { data: data.clone(), n: u(0), cols: u(1), size: u(2), max_size: u(3) }.write_to(&mut w),
+                    2 => ScalarZnx { data: data.clone(), n: u(0), cols: u(1) }.write_to(&mut w),
                     _ => MatZnx::from_data(data.clone(), u(0), u(2), u(3), u(4), u(1)).write_to(&mut w),
                 };
                 (if rr.is_ok() { 0 } else { 1 }, w)
@@ -860,7 +858,7 @@ impl Gen {
                 let mut h: Vec<i128> = (0..nh).map(|_| self.rng.range(0, 3) as i128).collect();
                 if tcode == 1 { h[3] = h[2] + self.rng.range(0, 2) as i128; }
                 let exact: i128 = match tcode { 1 => h[0] * h[1] * h[2] * 8, 2 => h[0] * h[1] * 8, _ => h.iter().product::<i128>() * 8 };
-                let len = match self.rng.below(4) { 0 => exact, 1 => (exact - 1 - self.rng.below(8) as i128).max(0), 2 => exact + 8 * self.rng.below(4) as i128, _ => exact };
+                let len = match self.rng.below(4) { 0 => exact, 1 if tcode != 3 => (exact - 1 - self.rng.below(8) as i128).max(0), 2 => exact + 8 * self.rng.below(4) as i128, _ => exact };
                 let data: Vec<u8> = (0..len).map(|_| self.rng.next() as u8).collect();
                 let mut ps = vec![self.dbg, tcode];
                 ps.extend(h);
@@ -886,7 +884,7 @@ impl Gen {
 }
 
 pub fn generate(tier: &str, seed: u64) -> Vec<Rec> {
-    let model = if std::env::var("C18_MODEL").map(|v| v == "fixed").unwrap_or(false) { 1 } else { 0 };
+    let model = match std::env::var("C18_MODEL").as_deref() { Ok("fixed") => 1, Ok("staged") => 2, _ => 0 };
     let mut g = Gen { rng: Rng::new(seed), out: vec![], dbg: overflow_checks_on() as i128, model };
     for t in ALL_TYPES { g.for_type(*t, tier); }
     g.max_size_cases();
